@@ -293,7 +293,7 @@ def verify(contract: Contract, src: SourceIndex = None, contracts=None, timeout_
     ctx = Ctx()
     ctx.models = models
     ctx.query_timeout_ms = timeout_ms
-    ctx.deadline = time.time() + (180 if timeout_ms <= 10000 else 900)
+    ctx.deadline = time.time() + (600 if timeout_ms <= 30000 else 2400)
     ctx.current_key = (modname, qual)
     ctx.contracts = {}
     for c in (contracts or []):
